@@ -110,6 +110,11 @@ func (g *Gen) textAtom(o bodyOpts) string {
 		return "{" + g.pick("afterbrace", " ", "a", "}", "{ ", "1", "\\$")
 	case 9:
 		g.feat("string-newline")
+		if o.heredoc && o.label != "EOT" && o.label != "" && g.chance(1, 6, "eotline") {
+			// a body line that starts with another heredoc's usual label is plain text
+			g.feat("heredoc-foreign-label-line")
+			return g.pick("nl", "\n", "\r\n") + o.indent + g.pick("foreignlabel", "EOT", "EOT;", "EOT\n", "EOT_", "EOT ", "EOD;")
+		}
 		if o.heredoc && o.label != "" && g.chance(1, 3, "labelprefix") {
 			// a body line that starts with the closing label followed by a name character is not the terminator
 			g.feat("heredoc-label-prefixed-line")
@@ -274,12 +279,17 @@ func (g *Gen) interp() (ast.Vertex, int) {
 		var dim ast.Vertex
 		switch g.intn(6, "dim") {
 		case 0:
-			s := g.pick("dimnum", "0", "7", "12")
+			s := g.pick("dimnum", "0", "7", "12", "10", "9223372036854775807")
 			t := g.tok(token.T_NUM_STRING, s)
 			noGap(t)
 			dim = &ast.ScalarLnumber{NumberTkn: t, Value: []byte(s)}
 		case 1:
-			s := g.pick("dimstr", "0x1F", "0b11", "99999999999999999999")
+			// PHP (ST_VAR_OFFSET): only "0" and decimal numbers without a leading zero are integer
+			// keys; every other digit string is a string key
+			s := g.pick("dimstr", "0x1F", "0b11", "99999999999999999999", "01", "00", "007", "9223372036854775808", "08")
+			if len(s) > 1 && s[0] == '0' && s[1] >= '0' && s[1] <= '9' {
+				g.feat("interp-dim-leading-zero")
+			}
 			t := g.tok(token.T_NUM_STRING, s)
 			noGap(t)
 			dim = &ast.ScalarString{StringTkn: t, Value: []byte(s)}
@@ -302,8 +312,14 @@ func (g *Gen) interp() (ast.Vertex, int) {
 			}
 			g.feat("interp-dim-negative")
 			m := g.ch('-')
-			t := g.tok(token.T_NUM_STRING, g.pick("neg", "1", "25"))
+			t := g.tok(token.T_NUM_STRING, g.pick("neg", "1", "25", "10", "0", "01", "00"))
 			noGap(m, t)
+			if t.Value[0] == '0' {
+				// "-0" and negative numbers with leading zeros are string keys (zend_negate_num_string)
+				g.feat("interp-dim-negative-string-key")
+				dim = &ast.ScalarString{MinusTkn: m, StringTkn: t, Value: []byte("-" + string(t.Value))}
+				break
+			}
 			dim = &ast.ExprUnaryMinus{MinusTkn: m, Expr: &ast.ScalarLnumber{NumberTkn: t, Value: t.Value}}
 		default:
 			if !g.O.PHP7 || g.O.Common {
@@ -353,6 +369,23 @@ func (g *Gen) interp() (ast.Vertex, int) {
 		if ev, ok := e.(*ast.ScalarLnumber); ok {
 			_ = ev
 			e = g.simpleVar()
+		}
+		if g.chance(1, 3, "dollarcurlyname") {
+			// "${ b }": a name directly behind "${" is the variable's name; behind whitespace or a
+			// comment it starts an ordinary expression (the constant b, b[1], B::C, f())
+			g.feat("interp-dollar-curly-name-expr")
+			nm := func() *ast.Name { return g.NameOf(g.plainName()) }
+			switch g.intn(4, "nameexpr") {
+			case 0:
+				e = &ast.ExprConstFetch{Const: nm()}
+			case 1:
+				e = &ast.ExprArrayDimFetch{Var: &ast.ExprConstFetch{Const: nm()}, OpenBracketTkn: g.ch('['), Dim: g.SmallInt(), CloseBracketTkn: g.ch(']')}
+			case 2:
+				e = &ast.ExprClassConstFetch{Class: nm(), DoubleColonTkn: g.tok(token.T_PAAMAYIM_NEKUDOTAYIM, "::"), Const: g.Ident(g.plainName())}
+			default:
+				e = &ast.ExprFunctionCall{Function: nm(), OpenParenthesisTkn: g.ch('('), CloseParenthesisTkn: g.ch(')')}
+			}
+			g.setGap(firstToken(e), GapMust)
 		}
 		// the expression must not begin with a bare name directly after "${"
 		return &ast.ScalarEncapsedStringVar{DollarOpenCurlyBracketTkn: o, Name: e, CloseCurlyBracketTkn: g.ch('}')}, 0
